@@ -772,7 +772,7 @@ CHECKS = {
             {"module": "rueidis", "scenario": "sentinel-follow", "quick": 5000, "thorough": 400000},
             {"module": "rueidis", "scenario": "sentinel-follow", "variant": "calm", "quick": 1000, "thorough": 100000},
         ],
-        "expected_probes": ["switch-master-delivered", "role-check-refused-node", "sentinels-named-different-masters", "event-deferred-while-mutex-busy",
+        "expected_probes": ["foreign-master-set-switch-announced", "switch-master-delivered", "role-check-refused-node", "sentinels-named-different-masters", "event-deferred-while-mutex-busy",
                             "primary-traffic-met-demoted-node", "sentinel-lost", "node-lost", "connection-lost", "liveness-judged"],
         "components": {"real": REAL, "stubs": STUBS},
         "assumptions": [
